@@ -2,6 +2,8 @@
 base strings, known-finding signatures (predicates over a failing case)."""
 
 KIND_NAMES = {
+    1301: 'C13/infodl: infodownloader vs InfoDl.v',
+    1302: 'C13/magnet: magnet.New(String()) vs Magnet.v (render then parse)',
     1701: 'C17/ram: resourcemanager vs Ram.v (outcomes and notifications validated; allocation compared exactly)',
     901: 'C09/picker: piecepicker (peer half) under the torrent glue vs Picker.v (picks validated against the legal set)',
     1501: 'C15/udp_packet: UDP announce datagram vs Tracker.udp_announce',
@@ -41,6 +43,11 @@ TRUSTED_COMMON = [
 ]
 
 PROPS = {
+    'C13': {
+        'kinds': {1301: {'quick': 2500, 'thorough': 50000}, 1302: {'quick': 3000, 'thorough': 60000}},
+        'trusted': ['net/url (Parse, ParseQuery, QueryEscape) beyond sampled agreement with the byte-level model', 'SHA-1 (adoption compares the digest of the assembled bytes with the info-hash)'],
+        'assumptions': [],
+    },
     'C17': {
         'kinds': {1701: {'quick': 1200, 'thorough': 20000}},
         'trusted': ['Go select semantics: one ready case is chosen; channel operations are atomic steps of the manager loop'],
